@@ -276,6 +276,7 @@ type Sim struct {
 	cursors   map[int]*t_api.Request
 	stepNo    int
 	commitSig []string
+	commitNo  int
 
 	Violations []*Violation
 	Stats      map[string]int
@@ -817,9 +818,24 @@ func (s *Sim) workStore(st *Step, take []*aioSQE) {
 		}
 		after := before
 		if committed && wrote {
-			snap, err := tables.Load(s.obs)
+			changed := map[string][]int64{}
+			for _, ch := range s.ctl.Changes {
+				changed[ch.Table] = append(changed[ch.Table], ch.Rowid)
+			}
+			snap, err := tables.Apply(before, s.obs, changed)
 			if err != nil {
 				panic(fmt.Sprintf("harness: snapshot failed: %v", err))
+			}
+			s.commitNo++
+			if s.commitNo%97 == 0 {
+				// cross-check the incremental snapshot against a full read
+				full, err := tables.Load(s.obs)
+				if err != nil {
+					panic(fmt.Sprintf("harness: snapshot failed: %v", err))
+				}
+				if d := tables.Diff(snap, full, false); len(d) > 0 {
+					panic("harness: incremental snapshot differs from a full read: " + strings.Join(d, "; "))
+				}
 			}
 			after = snap
 		}
